@@ -6,6 +6,7 @@ import LlgVerif.Spec.Regex
 import LlgVerif.Model.Repeat
 import LlgVerif.Model.Engine
 import LlgVerif.Model.Slicer
+import LlgVerif.Model.Stop
 import Driver.Util
 open LlgVerif Drv
 
@@ -27,6 +28,10 @@ structure St where
   engSt : EngState Nat := { st := 0, tokens := [], stopped := false }
   engHist : List (EngState Nat) := []
   sliceTop : Option Slice := none
+  stopStops : List (List UInt8) := []
+  stopToks : List Nat := []
+  stopVocab : List (Nat × List UInt8) := []
+  stopSt : StopSt := StopCfg.init
 
 /-- DFA over byte classes: `cls[b]` in `0..k`, `trans[q*k + c]` = successor, `≥ n` = dead. -/
 structure TDfa where
@@ -309,6 +314,34 @@ def handleSlice (st : St) (args : List String) : St × String :=
     | _, _, _ => (st, "bad-op")
   | _ => (st, "bad-op")
 
+def showHex (bs : List UInt8) : String :=
+  if bs.isEmpty then "_" else
+  String.ofList (bs.flatMap (fun b =>
+    let d (n : Nat) : Char := if n < 10 then Char.ofNat (48 + n) else Char.ofNat (87 + n)
+    [d (b.toNat / 16), d (b.toNat % 16)]))
+
+/-- stop controller model: `init <stop strings hex list> <stop token list>`, `tok id hex`,
+    `c id` -> output bytes (hex) and stopped flag -/
+def handleStop (st : St) (args : List String) : St × String :=
+  match args with
+  | ["init", stops, toks] =>
+    match parseHexList? stops, parseNatList? toks with
+    | some stops, some toks => ({ st with stopStops := stops, stopToks := toks, stopVocab := [], stopSt := StopCfg.init }, "ok")
+    | _, _ => (st, "bad-op")
+  | ["tok", id, bs] =>
+    match parseNat? id, parseHex? bs with
+    | some id, some bs => ({ st with stopVocab := (id, bs) :: st.stopVocab }, "ok")
+    | _, _ => (st, "bad-op")
+  | ["c", id] =>
+    match parseNat? id with
+    | some id =>
+      let cfg : StopCfg := { stops := st.stopStops, stopTokens := st.stopToks,
+                             tokBytes := fun t => ((st.stopVocab.find? (·.1 = t)).map (·.2)).getD [] }
+      let r := cfg.commit st.stopSt id
+      ({ st with stopSt := r.2 }, s!"ok {showHex r.1} {showBool r.2.stopped}")
+    | none => (st, "bad-op")
+  | _ => (st, "bad-op")
+
 def handleTrie (st : St) (args : List String) : St × String :=
   match args with
   | ["build", ws] =>
@@ -366,6 +399,7 @@ def step (st : St) (line : String) : St × String :=
   | "rep" :: args => (st, handleRep args)
   | "eng" :: args => handleEng st args
   | "slice" :: args => handleSlice st args
+  | "stop" :: args => handleStop st args
   | "rb" :: args => handleRb st args
   | ["reset"] => ({}, "ok")
   | _ => (st, "bad-op")
